@@ -85,7 +85,8 @@ Guard0(ev) ==
     [] ev.e = "FreezeRet" -> (ev.ok <=> holder = ta) /\ (mx = 1 => ev.ok)
     [] ev.e = "ThawRet" -> holder # ta
     [] ev.e = "Lock" -> holder = -1
-    [] ev.e = "Unlock" -> holder = ev.th
+    \* an application that froze the worker's loop keeps it frozen until it thaws it itself
+    [] ev.e = "Unlock" -> holder = ev.th /\ (ev.th = ta => ~appFrz)
     [] ev.e = "REnter" -> REnterGuard(ev)
     [] ev.e = "RLeave" -> insTh = ev.th /\ insDepth > 0
     [] ev.e \in {"RSetFd", "RSend", "Throw"} -> insTh = ev.th
